@@ -271,6 +271,11 @@ def run(ctx):
     os.environ['TZ'] = 'VRF+8'          # a host that is not on UTC: "the corresponding UTC instant" must not depend on it
     time.tzset()
     rnd = random.Random(ctx.seed)
+    # log records of several version-3 dumps read alternately through ONE reader object (spec/Readers.tla): every record is
+    # resolved through its own dump's string index
+    from . import readers
+    readers.model_check(ctx, 'idxOnObject')
+    readers.run_sessions(ctx, random.Random(ctx.seed + 92), 250 if ctx.quick else 5000, [3, 3, 3, 2], 'rd', force_logs=True)
     ctx.expect_ok(run_tlc('LogDecode_MC', MC_CFG, ctx.workdir, name='traceid', timeout=3600))
     # several dumps' string indexes in one process: the same string NUMBERS mean other strings in the next record
     lws = [LogWorld(rnd) for _ in range(3)]
